@@ -11,3 +11,4 @@ open Neutrino.CFHeaders
 #print axioms C03_honest_wins_counterexample
 #print axioms C03_honest_wins_counterexample_commits_false
 #print axioms genesis_inv
+#print axioms C03_detect_early_return
